@@ -144,7 +144,7 @@ impl Property for C18 {
         "C18"
     }
     fn rule(&self) -> String {
-        "case = 1..6 shipped compressed/archived journal and evtx files (gz, xz, bz2, lz4, tar) processed concurrently (+ optional text source), extraction slowed through the s4_verif delay hooks (per chunk 0/200/2000/30000 us; 0/500/5000 us between temp-file creation and its registration) x one unsignalled run + 4 (quick) / 16 (thorough) runs interrupted by SIGINT at generated instants: uniform over the unsignalled wall time, dense in the first 6 ms, and just before the normal end. oracle: after the process has exited the private TMPDIR is empty (every run, signalled or not); exit status 0/1, or death by SIGINT before the handler is installed; a signalled run must not simply run on to its normal end (decided only when the unsignalled run would have needed > 3.75 s more; one case in seven stretches extraction to 30 ms per chunk for that). non-trivial = the signal arrived while >= 1 temp file existed; distinct = (case, signal instant).".into()
+        "case = 1..6 shipped compressed/archived journal and evtx files (gz, xz, bz2, lz4, tar) processed concurrently (+ optional text source; one case in seven uses tar members only), extraction slowed through the s4_verif delay hooks (per chunk 0/200/2000/30000 us; 0/500/5000 us between temp-file creation and its registration) x one unsignalled run + 4 (quick) / 16 (thorough) runs interrupted by SIGINT at generated instants: uniform over the unsignalled wall time, dense in the first 6 ms, and just before the normal end. oracle: after the process has exited the private TMPDIR is empty (every run, signalled or not); exit status 0/1, or death by SIGINT before the handler is installed; a signalled run must not simply run on to its normal end (decided only when the unsignalled run would have needed > 3.75 s more; one case in seven stretches extraction to 30 ms per chunk for that). non-trivial = the signal arrived while >= 1 temp file existed; distinct = (case, signal instant).".into()
     }
     fn assumptions(&self) -> Vec<String> {
         vec!["crash points are sampled, not enumerated; the signal instant is controlled to roughly 50-300 us".into(), "a leftover seen once is a violation regardless of reproducibility".into()]
@@ -164,8 +164,18 @@ impl Property for C18 {
             prop::sample::select(vec![0u32, 500, 5000]),
             prop::collection::vec((prop::bool::weighted(0.35), any::<u16>()), ns..=ns),
             prop::bool::weighted(0.1),
+            prop::bool::weighted(0.15),
         )
-            .prop_map(|(files, with_text, extract_delay_us, ntf_delay_us, signals, slow_printing)| Case { files, with_text, extract_delay_us, ntf_delay_us, slow_printing: slow_printing && extract_delay_us < 30000, signals })
+            .prop_map(|(mut files, with_text, extract_delay_us, ntf_delay_us, signals, slow_printing, tar_only)| {
+                // one case in seven: every source that needs a temporary file is a member of a tar archive
+                if tar_only {
+                    let tar = POOL.iter().position(|p| p.ends_with(".tar")).unwrap_or(0) as u8;
+                    for f in files.iter_mut() {
+                        *f = tar;
+                    }
+                }
+                Case { files, with_text, extract_delay_us, ntf_delay_us, slow_printing: slow_printing && extract_delay_us < 30000, signals }
+            })
             .boxed()
     }
     fn exec(&self, case: &Case, _ctx: &Ctx) -> Outcome {
